@@ -357,22 +357,40 @@ func printers(c *hc.Ctx) {
 			} else if got, err := interpOps(ts, false); err != nil {
 				fail(c, "topdf-syntax", "ToPDF does not interpret: "+err.Error(), map[string]any{"path": p.String(), "topdf": pdf})
 			} else {
-				c.Case("PDF "+tolNum+" "+hc.DataHex(q.Data())+" |"+opTokString(ts), "=", "ok")
+				if carryArtefact(pdf) == "" {
+					c.Case("PDF "+tolNum+" "+hc.DataHex(q.Data())+" |"+opTokString(ts), "=", "ok")
+				} else {
+					c.Count("skip:lean-judge:dec-nines-carry") // judged exactly by the DEC lines
+				}
 				if extreme {
 					// needle-shaped arcs (radii ratio above 1e6) are flattened to lines by ReplaceArcs
 					c.Count("skip:topdf-needle-arc")
 				} else if bad := pdfSame(want, got, absDec); bad != "" {
-					fail(c, "topdf-decode", "ToPDF traces different geometry: "+bad, map[string]any{"path": p.String(), "data_hex": dataHex, "topdf": pdf})
+					if tok := carryArtefact(pdf); tok != "" {
+						fail(c, "topdf-decode:dec-nines-carry", "ToPDF prints "+tok+": "+bad, map[string]any{"path": p.String(), "topdf": pdf, "class": "dec-nines-carry"})
+					} else {
+						fail(c, "topdf-decode", "ToPDF traces different geometry: "+bad, map[string]any{"path": p.String(), "data_hex": dataHex, "topdf": pdf})
+					}
 				}
 			}
 			if ts, err := tokenizeOps(ps); err != nil {
 				fail(c, "tops-syntax", err.Error(), map[string]any{"path": p.String(), "tops": ps})
-			} else if got, err := interpOps(ts, true); err != nil {
+			} else if got, err := interpOps(ts, true); err != nil && carryArtefact(ps) != "" {
+				fail(c, "tops-decode:dec-nines-carry", "ToPS prints "+carryArtefact(ps)+": "+err.Error(), map[string]any{"path": p.String(), "tops": ps, "class": "dec-nines-carry"})
+			} else if err != nil {
 				fail(c, "tops-syntax", "ToPS does not interpret: "+err.Error(), map[string]any{"path": p.String(), "data_hex": dataHex, "tops": ps})
 			} else {
-				c.Case("PS "+tolNum+" "+dataHex+" |"+opTokString(ts), "=", "ok")
+				if carryArtefact(ps) == "" {
+					c.Case("PS "+tolNum+" "+dataHex+" |"+opTokString(ts), "=", "ok")
+				} else {
+					c.Count("skip:lean-judge:dec-nines-carry")
+				}
 				if bad, _ := sameGeometry(want, got, absDec, absDec); bad != "" {
-					fail(c, "tops-decode", "ToPS traces different geometry: "+bad, map[string]any{"path": p.String(), "data_hex": dataHex, "tops": ps})
+					if tok := carryArtefact(ps); tok != "" {
+						fail(c, "tops-decode:dec-nines-carry", "ToPS prints "+tok+": "+bad, map[string]any{"path": p.String(), "tops": ps, "class": "dec-nines-carry"})
+					} else {
+						fail(c, "tops-decode", "ToPS traces different geometry: "+bad, map[string]any{"path": p.String(), "data_hex": dataHex, "tops": ps})
+					}
 				}
 			}
 		}
@@ -445,10 +463,10 @@ func judgeStringRoundTrip(c *hc.Ctx, p, q *canvas.Path, replay map[string]any) {
 		lexed, _ := pstrconv.ParseFloat([]byte(printed))
 		rp := map[string]any{"path": replay["path"], "value": printed, "back": fmt.Sprintf("%g", b[k])}
 		switch {
-		case lexed == b[k] && math.Abs(lexed-a[k]) <= 1e-14*math.Abs(a[k]):
+		case lexed == b[k] && math.Abs(lexed-a[k]) <= 1e-14*math.Abs(a[k]) && lexClass(printed) == "inexact":
 			rp["class"] = "lexer-ulp"
 			fail(c, "string-roundtrip:number-off-by-ulp", fmt.Sprintf("value %s comes back as %v (%v ulp): strconv.ParseFloat of tdewolff/parse is not correctly rounded", printed, b[k], u), rp)
-		case lexed == b[k]:
+		case lexed == b[k] && lexClass(printed) == "large-exponent":
 			rp["class"] = "lexer-gross"
 			fail(c, "string-roundtrip:number-wrong-large-exponent", fmt.Sprintf("value %s comes back as %v: strconv.ParseFloat of tdewolff/parse mis-scales it", printed, b[k]), rp)
 		default:
@@ -571,7 +589,7 @@ func lexerGross(s string) string {
 	for i := 0; i < len(s); {
 		if v, j, ok := scanNumber(s, i); ok {
 			lv, _ := pstrconv.ParseFloat([]byte(s[i:j]))
-			if math.Abs(lv-v) > 1e-9*math.Abs(v) {
+			if math.Abs(lv-v) > 1e-9*math.Abs(v) && lexClass(s[i:j]) == "large-exponent" {
 				return s[i:j]
 			}
 			i = j
@@ -684,6 +702,18 @@ func sameStructure(want, got []gseg, rel, abs float64) string {
 		}
 		if d := a[i].start.Dist(b[i].start); !(d <= 32*tol+1e-10) {
 			return fmt.Sprintf("subpath %d starts at %v, want %v", i, b[i].start, a[i].start)
+		}
+	}
+	return ""
+}
+
+// carryArtefact returns the first operand of the form 1, zeros, trailing dot ("10.", "-1000."): the
+// signature of dec's nines-carry defect (dec prints no trailing dot otherwise).
+func carryArtefact(ops string) string {
+	for _, w := range strings.Fields(ops) {
+		t := strings.TrimPrefix(w, "-")
+		if len(t) >= 3 && t[0] == '1' && t[len(t)-1] == '.' && strings.Trim(t[1:len(t)-1], "0") == "" {
+			return w
 		}
 	}
 	return ""
